@@ -24,6 +24,8 @@ def run(ctx):
         gsm.run(ctx, "C06", 120 if q else 1200)
         from .. import alac           # CAF/ALAC: packet staging, pakt / kuki chunks, read / seek around the codec core (lean/SfModel/AlacFile.lean)
         alac.run(ctx, "C06", 96 if q else 960)
+        from .. import voxcamp        # OKI/VOX: the held sample of odd item counts (lean/SfModel/Oki.lean writeBlock / closeCarry / readBlock)
+        voxcamp.run(ctx, "C06", 120 if q else 1200)
         from .. import codecs20       # a table entry of the tree differs from the published one: look for an input that shows it
         codecs20.search(ctx)
         from .. import querycamp     # interleaved non-audio calls (chunk / string / metadata queries, SFC_CALC_*, …) do not move the audio position
